@@ -47,29 +47,14 @@ inductive Res (ν ε : Type)
   deriving DecidableEq, Repr
 
 /-- Which *forward* dunder (`__add__`, `__sub__`, `__mul__`, `__truediv__`, `__floordiv__`,
-    `__lshift__`, `__and__`, `__or__`) a class defines.  `CoordPayload.__div__` is a Python 2
-    name and is never looked up by `/`; neither class defines `__floordiv__`. -/
+    `__lshift__`, `__and__`, `__or__`) a class defines: both classes define all eight. -/
 def Kind.hasOp : Kind → BinOp → Bool
-  | .S, _ => true
-  | .P, .fdiv => false
-  | .P, _ => true
-  | .E, .add => true
-  | .E, .sub => true
-  | .E, .mul => true
-  | .E, _ => false
+  | _, _ => true
 
-/-- Which *reflected* dunder (`__radd__`, `__rsub__`, `__rmul__`, …) a class defines
-    (`CoordPayload.__rdiv__` is again a Python 2 name). -/
+/-- Which *reflected* dunder (`__radd__`, `__rsub__`, `__rmul__`, `__rtruediv__`, `__rfloordiv__`,
+    `__rlshift__`, `__rand__`, `__ror__`) a class defines: both classes define all eight. -/
 def Kind.hasROp : Kind → BinOp → Bool
-  | .S, _ => true
-  | .P, .add => true
-  | .P, .sub => true
-  | .P, .mul => true
-  | .P, _ => false
-  | .E, .add => true
-  | .E, .sub => true
-  | .E, .mul => true
-  | .E, _ => false
+  | _, _ => true
 
 section
 variable {ν ε : Type} (A : Alg ν ε)
@@ -147,17 +132,6 @@ def pyBin (op : BinOp) (ka kb : Kind) (x y : ν) : Res ν ε :=
     holding the result of the same operator on the underlying values. -/
 def binSpec (op : BinOp) (x y : ν) : Res ν ε := (opSS A op x y).rebox
 
-/-- The operator × operand-kind combinations on which today's classes deliver `binSpec`
-    (everything else raises TypeError, see `box_op_unsupported_raises`). -/
-def binSupported : BinOp → Kind → Kind → Bool
-  | .add, _, _ => true
-  | .sub, _, _ => true
-  | .mul, _, _ => true
-  | .fdiv, _, _ => false
-  | _, .P, .P => true          -- / << & |
-  | _, .P, .S => true
-  | _, _, _ => false
-
 /-! ### comparisons (both classes define all six; a scalar on the left uses the swapped method) -/
 
 def CmpOp.swap : CmpOp → CmpOp
@@ -194,11 +168,11 @@ def pyCmp (c : CmpOp) (ka kb : Kind) (x y : ν) : Bool :=
 
 /-- what the (element's) box holds afterwards: a value, or — a defect of `Payload.__ilshift__`
     given a `CoordPayload` — the element object itself -/
-inductive Held (ν : Type) | val (v : ν) | elemObj
+inductive Held (ν : Type) | val (v : ν) | elemObj   -- `elemObj` is no longer produced by the model; kept so that the observation stays expressible
   deriving DecidableEq, Repr
 
 /-- what the name on the left of `op=` is bound to afterwards -/
-inductive Ret | same | none | fresh
+inductive Ret | same | none | fresh   -- only `same` is produced by the model; the others name observable misbehaviour
   deriving DecidableEq, Repr
 
 inductive IRes (ν ε : Type)
@@ -218,21 +192,15 @@ def Res.store : Res ν ε → IRes ν ε
   | .typeError => .typeError
   | .raised e => .raised e
 
-/-- no in-place method: Python evaluates `a = a op b`; the old box is untouched (holds `x`) -/
-def Res.fallback (x : ν) : Res ν ε → IRes ν ε
-  | .plain _ => .done .fresh (.val x)
-  | .boxed _ => .done .fresh (.val x)
-  | .typeError => .typeError
-  | .raised e => .raised e
-
-/-- `Payload.__iadd__/__isub__/__imul__/__ilshift__`; there is no `__itruediv__`. -/
+/-- `Payload.__iadd__/__isub__/__imul__/__itruediv__`: `self.value = self.value op other.value`
+    (a `Payload` right operand) or `self.value op other`; `__ilshift__` unwraps an element or a
+    `Payload` and assigns.  All return `self`. -/
 def iopP (i : IOp) (kb : Kind) (x y : ν) : IRes ν ε :=
   match i with
-  | .ishl =>
-    match kb with
-    | .E => .done .same .elemObj       -- `self.value = other` with other a CoordPayload
-    | _ => .done .same (.val y)
-  | .idiv => (pyBin A .div .P kb x y).fallback x
+  | .ishl => .done .same (.val y)
+  | .idiv => match kb with
+    | .E => (opSE A .div x y).store
+    | _ => (opSS A .div x y).store
   | .iadd => match kb with
     | .E => (opSE A .add x y).store    -- `self.value + other`, other an element
     | _ => (opSS A .add x y).store
@@ -243,13 +211,10 @@ def iopP (i : IOp) (kb : Kind) (x y : ν) : IRes ν ε :=
     | .E => (opSE A .mul x y).store
     | _ => (opSS A .mul x y).store
 
-/-- `CoordPayload.__iadd__/__isub__/__imul__/__ilshift__` forward to the payload
-    (`other.payload` for an element, `other` otherwise) and return `self`;
-    `__idiv__` is a Python 2 name, so `/=` falls back to `/`. -/
+/-- `CoordPayload.__iadd__/__isub__/__imul__/__itruediv__/__ilshift__` forward to the payload
+    (`other.payload` for an element, `other` otherwise) and return `self`. -/
 def iopE (i : IOp) (kb : Kind) (x y : ν) : IRes ν ε :=
-  match i with
-  | .idiv => (pyBin A .div .E kb x y).fallback x
-  | _ => iopP A i (if kb = .E then .P else kb) x y
+  iopP A i (if kb = .E then .P else kb) x y
 
 /-- `a op= b` where `a` is a box (`ka = P`) or an element (`ka = E`) -/
 def pyIop (i : IOp) (ka kb : Kind) (x y : ν) : IRes ν ε :=
@@ -266,19 +231,6 @@ def iopSpec (i : IOp) (x y : ν) : IRes ν ε :=
     match A.bin op x y with
     | .ok v => .done .same (.val v)
     | .error e => .raised e
-
-/-- the in-place forms × operand kinds on which today's classes deliver `iopSpec` -/
-def iopSupported : IOp → Kind → Kind → Bool
-  | .iadd, .P, _ => true
-  | .isub, .P, _ => true
-  | .imul, .P, _ => true
-  | .iadd, .E, _ => true
-  | .isub, .E, _ => true
-  | .imul, .E, _ => true
-  | .ishl, .P, .P => true
-  | .ishl, .P, .S => true
-  | .ishl, .E, _ => true
-  | _, _, _ => false
 
 end
 
@@ -352,25 +304,28 @@ def iaddT [Add ν] (dflt : ν) : (d : Nat) → Tree κ ν d → Tree κ ν d →
         if removeAfter dflt d old.isNone v then none else some v)
       (show List (κ × Tree κ ν d) from a) (present dflt d b)
 
-/-- The loop of `Fiber.__imul__(fiber)`: `self & other` walks both operands with two fingers;
+/-- The loops of `Fiber.__imul__(fiber)`: `self & other` walks both operands with two fingers;
     at a common coordinate `getPayloadRef(c)` is that element of `self`, which is overwritten
-    (`f`); every other element of `self` stays where it is. -/
-def imulMerge {α β : Type} (f : α → β → α) : Fib κ α → Fib κ β → Fib κ α
+    (`f`); `self - other` then visits the elements of `self` without a partner, which are
+    emptied (`g`). -/
+def imulMerge {α β : Type} (f : α → β → α) (g : α → α) : Fib κ α → Fib κ β → Fib κ α
   | [], _ => []
-  | a@(_ :: _), [] => a
+  | a@(_ :: _), [] => a.map (fun e => (e.1, g e.2))
   | (ca, pa) :: ra, (cb, pb) :: rb =>
-    if ca = cb then (ca, f pa pb) :: imulMerge f ra rb
-    else if ca < cb then (ca, pa) :: imulMerge f ra ((cb, pb) :: rb)
-    else imulMerge f ((ca, pa) :: ra) rb
+    if ca = cb then (ca, f pa pb) :: imulMerge f g ra rb
+    else if ca < cb then (ca, g pa) :: imulMerge f g ra ((cb, pb) :: rb)
+    else imulMerge f g ((ca, pa) :: ra) rb
 termination_by a b => a.length + b.length
 
 /-- `Fiber.__imul__(fiber)`: for every element of `self & other` (presented on both sides),
-    `self.getPayloadRef(c) <<= self_val * other_val`.  (`<<=` of a fiber copies the presented
-    elements = `nonEmpty`; an element of `self` that is not presented is skipped by `&`.)
-    Elements of `self` outside the intersection are not touched. -/
+    `self.getPayloadRef(c) <<= self_val * other_val` (`<<=` of a fiber copies the presented
+    elements = `nonEmpty`); every element `self - other` yields (presented by `self` only) is
+    set to the default / cleared.  Elements of `self` that are not presented are skipped by
+    both iterators. -/
 def imulT [Mul ν] (dflt : ν) (d : Nat) (a b : Tree κ ν (d + 1)) : Tree κ ν (d + 1) :=
   show List (κ × Tree κ ν d) from
   imulMerge (fun pa pb => if isEmpty dflt d pa then pa else nonEmpty dflt d (mulT dflt d pa pb))
+    (fun pa => if isEmpty dflt d pa then pa else dfltTree dflt d)
     (show List (κ × Tree κ ν d) from a) (present dflt d b)
 
 /-! ### pointwise expectations (the declarative side) -/
@@ -447,13 +402,30 @@ def ismulF [Mul ν] (dflt s : ν) (f : Fib Int ν) : Fib Int ν :=
 def inShapeB {α : Type} (n : Nat) (f : Fib Int α) : Bool :=
   f.all (fun e => decide (0 ≤ e.1) && decide (e.1 < (n : Int)))
 
-/-- value-returning scalar forms on a fiber whose payloads are fibers: the loop body reads
-    `p.value` of a `Fiber` → AttributeError as soon as one element is visited. -/
-def saddDeep (n : Nat) : Except String (Fib Int Unit) :=
-  if n = 0 then .ok [] else .error "AttributeError"
+/-- `Fiber.__add__(scalar)` at any depth: over the whole shape of this rank,
+    `other + Payload.get(p)` - a leaf sum, or recursively `Fiber.__radd__` on the sub-fiber
+    (`getPayload(c)` yields the stored payload or `_createDefault`).  `shp` lists the shapes of
+    the ranks from this one down (tensor-owned fibers). -/
+def saddT [Add ν] (dflt s : ν) : (d : Nat) → List Nat → Tree Int ν d → Tree Int ν d
+  | 0, _, v => s + (show ν from v)
+  | d + 1, shp, f =>
+    show List (Int × Tree Int ν d) from
+    (List.range (shp.headD 0)).map (fun (i : Nat) =>
+      ((i : Int), saddT dflt s d shp.tail
+        ((lookup (show List (Int × Tree Int ν d) from f) (i : Int)).getD (dfltTree dflt d))))
 
-def smulDeep (dflt : ν) (d : Nat) (a : Tree Int ν (d + 2)) : Except String (Fib Int Unit) :=
-  if (present dflt (d + 1) a).isEmpty then .ok [] else .error "AttributeError"
+/-- `Fiber.__mul__(scalar)` at any depth: over the presented elements, `other * Payload.get(p)`. -/
+def smulT {κ : Type} [Mul ν] (dflt s : ν) : (d : Nat) → Tree κ ν d → Tree κ ν d
+  | 0, v => s * (show ν from v)
+  | d + 1, f =>
+    show List (κ × Tree κ ν d) from
+    (present dflt d f).map (fun e => (e.1, smulT dflt s d e.2))
+
+/-- a point lies inside a (multi-rank) shape -/
+def inGridB : List Nat → List Int → Bool
+  | _, [] => true
+  | [], _ :: _ => false
+  | n :: ns, c :: q => decide (0 ≤ c) && decide (c < (n : Int)) && inGridB ns q
 
 end
 end Arith
